@@ -690,6 +690,40 @@ def _selftest_vectors():
     s13 = Seq((M('a', Tag(0, Ref('List'), '', 'IMPLICIT'), 'O'), M('b', Tag(1, Ref('List'), '', 'IMPLICIT'), 'O')))
     add('test_der.test_all_types Sequence13 a', s13, {'a': [1]}, '3005a003020101', {'List': Of(I)})
     add('test_der.test_all_types Sequence13 b', s13, {'b': [1]}, '3005a103020101', {'List': Of(I)})
+    # ---- test_ber.test_module_tags_explicit / _implicit / _automatic (no SET, so BER output = DER) ----
+    S1 = Seq((M('a', I), M('b', B, 'O')))
+    menv = {'A': Tag(3, I), 'AI': Tag(3, I, '', 'IMPLICIT'), 'BA': Tag(4, Ref('A')),
+            'BIA': Tag(4, Ref('A'), '', 'IMPLICIT'), 'BIAI': Tag(4, Ref('AI'), '', 'IMPLICIT'),
+            'CBA': Tag(5, Ref('BA')), 'CBIAI': Tag(5, Ref('BIAI')), 'CIBIA': Tag(5, Ref('BIA'), '', 'IMPLICIT'),
+            'CIBIAI': Tag(5, Ref('BIAI'), '', 'IMPLICIT'), 'S1': S1,
+            'S2': Seq((M('a', I), M('b', Tag(2, Ref('S1'))), M('c', Cho((M('a', B),))))),
+            'S3': Seq((M('a', I), M('b', Tag(2, Ref('S1'))), M('c', Tag(3, Cho((M('a', B),)), '', 'EXPLICIT')))),
+            'S4': Seq((M('a', I), M('b', Tag(1, Ref('C1'))), M('c', Tag(2, Ref('S1'))), M('d', Cho((M('a', B),))))),
+            'C1': Cho((M('a', Tag(0, Cho((M('a', Tag(0, I)),)))),))}
+    v2 = {'a': 1, 'b': {'a': 3}, 'c': ('a', True)}
+    v4 = {'a': 1, 'b': ('a', ('a', 2)), 'c': {'a': 3}, 'd': ('a', True)}
+    for mode, rows in [
+        ('EXPLICIT', [('CBA', 1, 'a507a405a303020101'), ('CBIAI', 1, 'a503840101'), ('CIBIA', 1, 'a503020101'),
+                      ('CIBIAI', 1, '850101'), ('S2', v2, '300d020101a2053003020103' + '0101ff'),
+                      ('S3', v2, '300f020101a2053003020103a3030101ff'),
+                      ('S4', v4, '3016020101a107a005a003020102a20530030201030101ff')]),
+        ('IMPLICIT', [('CBA', 1, '850101'), ('CBIAI', 1, '850101'), ('CIBIA', 1, '850101'), ('CIBIAI', 1, '850101'),
+                      ('S2', v2, '300b020101a2030201030101ff'), ('S3', v2, '300d020101a203020103a3030101ff'),
+                      ('S4', v4, '3012020101a105a003800102a2030201030101ff')]),
+        ('AUTOMATIC', [('CBA', 1, '850101'), ('CIBIAI', 1, '850101'),
+                       ('S2', v2, '300b020101a2038001038001ff'), ('S3', v2, '300d020101a203800103a3038001ff'),
+                       ('S4', v4, '3012020101a105a003800102a2038001038001ff')])]:
+        for tname, val, exp in rows:
+            add('test_ber.test_module_tags_%s %s' % (mode.lower(), tname), Ref(tname), val, exp, menv, mode)
+    add('test_der.test_long_tag A', Tag(31, I), 1, '9f1f0101', None, 'IMPLICIT')
+    add('test_der.test_long_tag B', Tag(500, I), 1, '9f83740101', None, 'IMPLICIT')
+    nenv = {'INNERSEQ': Seq((M('innernumber', Tag(21, I)),)), 'INNER': Tag(20, Ref('INNERSEQ'), 'APPLICATION'),
+            'OUTERSEQ': Seq((M('outernumber', Tag(11, I)), M('inner', Tag(12, Ref('INNER'))))),
+            'OUTER': Tag(10, Ref('OUTERSEQ'), 'APPLICATION')}
+    add('test_ber.test_nested_explicit_tags', Ref('OUTER'), {'outernumber': 23, 'inner': {'innernumber': 42}},
+        '6a123010ab03020117ac0974073005b50302012a', nenv)
+    add('test_ber.test_boolean_explicit_tags', Tag(2, B), True, 'a2030101ff')
+    add('test_ber.test_boolean_implicit_tags', Tag(2, B, '', 'IMPLICIT'), True, '8201ff')
     # ---- test_codecs_consistency vectors (ber and der) for the X.680 time types (8.26) --
     add('test_codecs_consistency DATE 1985-04-12', L('DATE'), datetime.date(1985, 4, 12), b'\x1f\x1f\x0819850412')
     add('test_codecs_consistency TIME-OF-DAY 15:27:46', L('TIME-OF-DAY'), datetime.time(15, 27, 46), b'\x1f\x20\x06152746')
